@@ -621,3 +621,8 @@ Theorem C08_parallel_added_channel : forall i cs c v t, lookup c cs = Some v ->
   sample (WTrans i (TParallel cs)) c t = Some (tval_at v t).
 Proof. exact parallel_added_channel. Qed.
 Print Assumptions C08_parallel_added_channel.
+(* MultiChannelWaveform: a request that touches exactly ONE part is answered by that part's get_subset_for_channels *)
+Theorem C08_multi_subset_one_part : forall l cs x,
+  filter (fun y => negb (disjointb (channels y) cs)) l = [x] -> subset_u (WMulti l) cs = get_wrap x cs (subset_u x cs).
+Proof. exact multi_subset_one_part. Qed.
+Print Assumptions C08_multi_subset_one_part.
